@@ -421,11 +421,28 @@ class Verifier(Calls):
             self.prove(st, self.eval_spec(st, inv, self.cur_spec_frame(st), old=st.old), 'inv-init[%d]' % k, stmt, inv)
         # 2. havoc everything the body may assign
         writes = {'locals': set(), 'heap': []}
-        self.collect_writes(stmt.body, st, {}, True, 0, writes)
+        body_and_guard = list(stmt.body)
+        if guard is not None:
+            # the guard is evaluated before every iteration: its side effects (`while scanner.consume(...)`) count
+            body_and_guard = [ast.copy_location(ast.Expr(value=guard), stmt)] + body_and_guard
+        self.collect_writes(body_and_guard, st, {}, True, 0, writes)
         cfun = REG.fns.get(key)
         if cfun is not None and cfun.ghost:
             # ghost state is updated by callback invocations / ghost code, which are not visible syntactically
-            writes['locals'].update(cfun.ghost)
+            if cfun.callback or cfun.ghost_update or cfun.captures or not cfun.ghost_code:
+                writes['locals'].update(cfun.ghost)
+            else:
+                # only ghost code: a ghost variable changes in this loop iff one of its anchors lies in the loop
+                texts = set()
+                for n_ in ast.walk(ast.Module(body=body_and_guard, type_ignores=[])):
+                    if isinstance(n_, ast.stmt):
+                        texts.add(ast.unparse(n_))
+                    elif isinstance(n_, ast.Call):
+                        texts.add('call ' + ast.unparse(n_))
+                for anchor, lines in cfun.ghost_code.items():
+                    if anchor in texts:
+                        for gline in lines:
+                            writes['locals'].add(gline.split('=', 1)[0].strip())
         if pre_body:
             writes['locals'].add(pre_body[0])
             for n in ast.walk(stmt.target):
@@ -487,10 +504,10 @@ class Verifier(Calls):
             s_out.assume(iv.t >= n)
             if self.feasible(s_out):
                 branches.append((s_out, False))
-        if not any(t for _, t in branches):
-            # the invariant (with the guard) is inconsistent in the arbitrary-iteration state: the body would
-            # never be checked.  Recorded; verify() reports it as vacuity instead of `ok`.
-            self.dead_after_call.append('%s@L%d: the body of loop %d is unreachable under its invariant' % (key, line, k))
+        # a loop whose body is unreachable under its invariant on EVERY visit would never be checked: recorded
+        # per loop, reported by verify() as vacuity (one visit without an iteration is normal)
+        lk = (key, line, k)
+        self.loop_body_seen[lk] = self.loop_body_seen.get(lk, False) or any(t for _, t in branches)
         for s, taken in branches:
             if not taken:
                 s.trace.append('L%d:exit' % line)
@@ -599,7 +616,12 @@ class Verifier(Calls):
         probe.spec = True
         if isinstance(f, ast.Name):
             if f.id in submap and submap[f.id] is not None:
-                return self.static_callee(ast.Call(func=submap[f.id], args=node.args, keywords=node.keywords), st, {}, True)
+                # the argument expression belongs to the caller: resolve it in the caller's frame
+                so = st
+                if not is_caller_scope and st.frames and st.frame.parent is not None:
+                    so = st.fork()
+                    so.frames = so.frames[:st.frame.parent + 1]
+                return self.static_callee(ast.Call(func=submap[f.id], args=node.args, keywords=node.keywords), so, {}, True)
             try:
                 v = self.lookup(probe, f.id, node)
             except Unsupported:
@@ -957,9 +979,11 @@ class Verifier(Calls):
         t0 = time.time()
         c = REG.fns[key]
         self.cur_key = key
+        REG.current_fn = key
         self.obligations = []
         self.unmodelled = []
         self.dead_after_call = []
+        self.loop_body_seen = {}
         smt.reset_adaptive()
         self.npaths = 0
         self.exits = 0
@@ -1029,6 +1053,10 @@ class Verifier(Calls):
             elif self.dead_after_call:
                 res['status'] = 'undecided'
                 res['reason'] = 'vacuous: ' + self.dead_after_call[0]
+            elif any(not seen for seen in getattr(self, 'loop_body_seen', {}).values()):
+                lk = next(k for k, seen in self.loop_body_seen.items() if not seen)
+                res['status'] = 'undecided'
+                res['reason'] = 'vacuous: %s@L%d: the body of loop %d is unreachable under its invariant' % lk
         return res
 
     def entry_state(self, c, m, fn):
